@@ -154,7 +154,10 @@ func checkPubSub(sc *Scenario, rs *runState, out *explorer.Outcome) []cviol {
 		}
 		switch name {
 		case "subscribe":
-			ops = append(ops, lin.Op{Thread: o.Thread, Call: o.Call, Ret: o.Ret, Pending: !o.Done, In: psIn{Kind: "sub", Conn: conn, Chs: o.Args[1:]}, Out: psOut{}})
+			// each channel is registered on its own: one operation per channel over the same interval
+			for _, ch := range o.Args[1:] {
+				ops = append(ops, lin.Op{Thread: o.Thread, Call: o.Call, Ret: o.Ret, Pending: !o.Done, In: psIn{Kind: "sub", Conn: conn, Chs: []string{ch}}, Out: psOut{}})
+			}
 		case "publish":
 			var recv []string
 			for cn, msgs := range got {
